@@ -151,6 +151,47 @@ def run(ctx):
         c.ob("R3", ok, cm, "config-is-mapping", "create_machine checks that the config is a mapping before reading it" if ok else
              f"'{stmt_text(x)}' in create_machine is not dominated by an isinstance(config, dict) check on every path (with logic= given the "
              f"loader's check is skipped): a non-object config raises a raw AttributeError/TypeError", x)
+    # ---- R6 the path walk consumes every segment through a child lookup ---------------------------
+    # All target spellings end in one walk: cursor = cursor.states[segment] for each segment of the path it is
+    # given.  The walk must take the path as handed over: a segment that is dropped (or inserted) inside the walk
+    # makes two spellings of different states resolve to one node (a child keyed like its parent, a top-level
+    # state keyed like the machine id).
+    walks = []
+    for f in p.funcs_in("resolver"):
+        for lp in own_nodes(f.node):
+            if isinstance(lp, ast.For) and isinstance(lp.target, ast.Name) and any(
+                    isinstance(x, ast.Assign) and isinstance(x.value, ast.Subscript) and norm(x.value.value).endswith(".states")
+                    and norm(x.value.slice) == lp.target.id for st in lp.body for x in ast.walk(st)):
+                walks.append((f, lp))
+    c.floor("R6", "segment walks in the resolver", len(walks), 1)
+    for f, lp in walks:
+        it = lp.iter
+        direct = isinstance(it, ast.Name) and it.id in f.params
+        muts = []
+        if direct:
+            for x in own_nodes(f.node):
+                if isinstance(x, (ast.Assign, ast.AugAssign, ast.AnnAssign)):
+                    tg = x.targets if isinstance(x, ast.Assign) else [x.target]
+                    if any(isinstance(t, ast.Name) and t.id == it.id for t in tg):
+                        v_ = getattr(x, "value", None)
+                        if not (isinstance(v_, ast.Call) and isinstance(v_.func, ast.Name) and v_.func.id in ("list", "tuple") and
+                                len(v_.args) == 1 and norm(v_.args[0]) == it.id):
+                            muts.append(x)
+                    if any(isinstance(t, ast.Subscript) and norm(t.value) == it.id for t in tg):
+                        muts.append(x)
+                elif isinstance(x, ast.Delete) and any(isinstance(t, ast.Subscript) and norm(t.value) == it.id for t in x.targets):
+                    muts.append(x)
+                elif isinstance(x, ast.Call) and isinstance(x.func, ast.Attribute) and norm(x.func.value) == it.id and \
+                        x.func.attr in ("pop", "remove", "insert", "append", "extend", "clear", "reverse", "sort"):
+                    muts.append(x)
+        ok = direct and not muts
+        c.ob("R6", ok, f, "walk-consumes-path-as-given", "the walk iterates the path it was handed, unmodified" if ok else
+             (f"'{stmt_text(muts[0])}' rewrites the path inside the walk" if muts else f"the walk iterates '{norm(it)}', not the path parameter") +
+             ": a segment is dropped or added depending on the node's own key, so spellings that name different states (a child keyed like its "
+             "parent, '#id.id') resolve to the same node and an unresolvable one is accepted", muts[0] if muts else lp)
+        raises = any(isinstance(x, ast.Raise) and x.exc is not None and "StateNotFoundError" in norm(x.exc) for st in lp.body for x in ast.walk(st))
+        c.ob("R6", raises, f, "walk-missing-child-raises", "a segment that names no child raises StateNotFoundError" if raises else
+             "the walk no longer raises StateNotFoundError for a segment that names no child", lp)
     # ---- R5 an unresolvable target is a StateNotFoundError in both engines -------------------------
     for v in VIEWS:
         r = roles(ctx, v)
